@@ -13,7 +13,9 @@
 (*   c19: hook pairs (same script without and with hooks)                  *)
 (***************************************************************************)
 EXTENDS ClientExchange, TLC, Json, FiniteSets, FiniteSetsExt, SequencesExt
-CONSTANTS Set, Tier
+CONSTANTS Set, Tier,
+          Part, Parts   \* this run generates the cases whose partition key is Part modulo Parts (parallel generation)
+InPart(k) == k % Parts = Part
 Thorough == Tier = "thorough"
 VARIABLE c
 
@@ -75,11 +77,15 @@ Clients == {"tcp", "rtu", "serial"}
 Exch(cl, a, R, script, fault, hooks, pair) ==
     [op |-> "exch", client |-> cl, req |-> a, reply |-> R, script |-> script, fault |-> fault, hooks |-> hooks, pair |-> pair]
 
-Benign(cl, a, R) ==
+BenignOver(cl, a, R, cutsets) ==
     UNION {{Exch(cl, a, R, ChunkScript(Len(R), cuts), "none", 0, 0)} \cup
            {Exch(cl, a, R, WithEmpties(ChunkScript(Len(R), cuts), e, 1), "none", 0, 0) :
                 e \in (IF Cardinality(cuts) <= 2 \/ Thorough THEN EmptyKinds(cl) ELSE {"deadline"})} :
-           cuts \in CutSets(Len(R))}
+           cuts \in cutsets}
+Benign(cl, a, R) == BenignOver(cl, a, R, CutSets(Len(R)))
+\* for the many residue cases: all cut sets only of the shorter replies (measured: with all cut sets up to 13 bytes the
+\* thorough generator, then a single process, did not finish in 30 minutes)
+CutSetsR(L) == IF L <= (IF Thorough THEN 12 ELSE 9) THEN SUBSET (1..(L - 1)) ELSE {{}} \cup {{a} : a \in 1..(L - 1)} \cup {{a, b} : a, b \in 1..(L - 1)}
 
 F17Variants == IF Thorough THEN {<<1, 0>>, <<1, 1>>, <<2, 2>>, <<5, 4>>} ELSE {<<1, 0>>, <<2, 2>>}
 
@@ -92,15 +98,17 @@ HistCases(cl) ==
                                                    <<Chunk(4), Chunk(Len(HistReply(cl, fc, k)) - 4)>>, "none", 0, 0)]] : fc \in {1, 3}}
 
 C07Cases(z) ==
-    UNION {HistCases(cl) : cl \in Clients} \cup
-    UNION {Benign(cl, a, ReplyTo(FramingOf(cl), a, v)) : cl \in Clients, a \in ReqShapes("s"), v \in F17Variants}
-    \cup UNION {Benign(cl, a, ReplyTo(FramingOf(cl), a, <<2, 2>>)) : cl \in Clients, a \in {x \in ReqShapes("m") : x.fc \in {1, 2, 3, 4, 23}}}
-    \cup UNION {Benign(cl, a, ReplyTo(FramingOf(cl), a, <<100, 100>>)) : cl \in Clients, a \in {x \in ReqShapes("l") : x.fc \in (IF Thorough THEN {1, 3, 17, 23} ELSE {3, 17})}}
+    (IF Part = 0 THEN UNION {HistCases(cl) : cl \in Clients} ELSE {}) \cup
+    UNION {UNION {Benign(cl, a, ReplyTo(FramingOf(cl), a, v)) : v \in (IF a.fc = 17 THEN F17Variants ELSE {<<1, 0>>})} :
+              cl \in Clients, a \in {x \in ReqShapes("s") : InPart(x.fc + 3)}}
+    \cup UNION {Benign(cl, a, ReplyTo(FramingOf(cl), a, <<2, 2>>)) : cl \in Clients, a \in {x \in ReqShapes("m") : x.fc \in {1, 2, 3, 4, 23} /\ InPart(x.fc)}}
+    \cup UNION {Benign(cl, a, ReplyTo(FramingOf(cl), a, <<100, 100>>)) : cl \in Clients,
+                 a \in {x \in ReqShapes("l") : x.fc \in (IF Thorough THEN {1, 3, 17, 23} ELSE {3, 17}) /\ InPart(x.fc + 1)}}
     \* every residue of the coil quantity modulo 8 (the reply's byte count is a ceiling division)
-    \cup UNION {Benign(cl, Args(fc, 1, 5, q, <<>>, <<>>, 0, 300 + q), ReplyTo(FramingOf(cl), Args(fc, 1, 5, q, <<>>, <<>>, 0, 300 + q), <<1, 0>>)) :
-                 cl \in (IF Thorough THEN Clients ELSE {"tcp", "rtu"}), fc \in {1, 2}, q \in (IF Thorough THEN 2..33 ELSE 2..17)}
-    \cup UNION {Benign(cl, a, ExcReplyTo(FramingOf(cl), a, code)) : cl \in Clients, a \in ReqShapes("s"), code \in {2}}
-    \cup UNION {Benign(cl, a, ExcReplyTo(FramingOf(cl), a, code)) : cl \in Clients, a \in {x \in ReqShapes("l") : x.fc \in {3, 16}}, code \in {1, 4, 11}}
+    \cup UNION {LET ra == Args(fc, 1, 5, q, <<>>, <<>>, 0, 300 + q) rr == ReplyTo(FramingOf(cl), ra, <<1, 0>>) IN BenignOver(cl, ra, rr, CutSetsR(Len(rr))) :
+                 cl \in (IF Thorough THEN Clients ELSE {"tcp", "rtu"}), fc \in {1, 2}, q \in {x \in (IF Thorough THEN 2..33 ELSE 2..17) : InPart(x)}}
+    \cup UNION {Benign(cl, a, ExcReplyTo(FramingOf(cl), a, code)) : cl \in Clients, a \in {x \in ReqShapes("s") : InPart(x.fc)}, code \in {2}}
+    \cup UNION {Benign(cl, a, ExcReplyTo(FramingOf(cl), a, code)) : cl \in Clients, a \in {x \in ReqShapes("l") : x.fc \in {3, 16} /\ InPart(x.fc)}, code \in {1, 4, 11}}
 
 ----------------------------------------------------------------------------
 (* C08: faults after every prefix *)
@@ -191,7 +199,7 @@ C12Cases(z) ==
 Pair(x) == <<x, [x EXCEPT !.hooks = 1, !.pair = 1]>>
 HookBase(z) ==
     {x \in {y \in C07Cases(0) : y.op = "exch"} : Len(x.script) <= (IF Thorough THEN 6 ELSE 4) /\ (x.req.fc \in {1, 3, 5, 16, 17, 23} \/ Thorough)}
-    \cup {x \in {y \in C08Cases(0) : y.op = "exch"} : x.req.fc \in {3, 5, 17} \/ Thorough}
+    \cup (IF Part = 0 THEN {x \in {y \in C08Cases(0) : y.op = "exch"} : x.req.fc \in {3, 5, 17} \/ Thorough} ELSE {})
 \* the configurable client (parser observable): benign scripts, EOF before / at completion, I/O error
 GenArgs == Args(3, 1, 10, 2, <<>>, <<>>, 0, 4660)
 GenBase(z) ==
@@ -201,9 +209,10 @@ GenBase(z) ==
                 \cup {<<PrefixScript(p, 0) \o <<Term("eof")>>, "eof">> : p \in 0..(L - 1)}
                 \cup {<<ChunkScript(L, {4}) \o <<Term("eof")>>, "none">>}
                 \cup {<<PrefixScript(p, 2) \o <<Term("ioerr")>>, "ioerr">> : p \in {0, 3, 8}}}
-C19Cases(z) == {[op |-> "pair", a |-> x, b |-> [x EXCEPT !.hooks = 1, !.pair = 1]] : x \in HookBase(0) \cup GenBase(0)}
-               \cup {[op |-> "seq", seq |-> [i \in 1..Len(q.seq) |-> [q.seq[i] EXCEPT !.hooks = 1]]] :
-                        q \in {y \in C08Cases(0) : y.op = "seq"} \cup UNION {HistCases(cl) : cl \in Clients}}
+C19Cases(z) == {[op |-> "pair", a |-> x, b |-> [x EXCEPT !.hooks = 1, !.pair = 1]] : x \in HookBase(0) \cup (IF Part = 0 THEN GenBase(0) ELSE {})}
+               \cup (IF Part # 0 THEN {} ELSE
+                     {[op |-> "seq", seq |-> [i \in 1..Len(q.seq) |-> [q.seq[i] EXCEPT !.hooks = 1]]] :
+                        q \in {y \in C08Cases(0) : y.op = "seq"} \cup UNION {HistCases(cl) : cl \in Clients}})
 
 CaseSet(z) == CASE Set = "c07" -> C07Cases(0) [] Set = "c08" -> C08Cases(0) [] Set = "c12" -> C12Cases(0) [] Set = "c19" -> C19Cases(0)
 
